@@ -606,3 +606,17 @@ class _TIForm(T):
 
 
 TITerm, TIForm = _TITerm(), _TIForm()
+
+
+class TFunInt(T):
+    """a callable parameter int^n -> int, denoted by a given z3 function (it is assumed to be a function
+    of its arguments: no state, no exceptions)"""
+
+    def __init__(self, fn):
+        self.fn = fn
+
+    def fresh(self, name, st):
+        v = VOpaque("function parameter " + name)
+        v.kind = "pyfun"
+        v.fn = self.fn
+        return v
